@@ -639,6 +639,7 @@ def path_input(names, path, npts, with_pz=False):
 def run_gd_path(ctx, exe, db, extra, names, path, stats):
     """adaptive refinement; returns (verdict, info) with verdict in ok / bad / unjudged"""
     info = {}
+    prev = None
     for npts in (17, 33, 65, 129, 257):
         ses = session(ctx, exe, db, extra, [f"run 0 {hs(path_input(names, path, npts, True))}\n"])
         if ses["db"] != 0 or not ses["runs"]:
@@ -657,7 +658,11 @@ def run_gd_path(ctx, exe, db, extra, names, path, stats):
         info = dict(j, npts=npts, aw=[aw_oracle(s) for s in (sols[0], sols[-1])], sols=sols)
         if j["scale"] <= 0:
             return "unjudged", {"why": "zero scale"}
-        if j["est"] <= 3e-6 * j["scale"]:
+        # judged only when the discretisation error is demonstrably far below the tolerance: two Richardson levels of
+        # this grid agree to 3e-6 of the scale AND the value agrees with the one from the previous (half as fine) grid to 1e-5
+        stable = prev is not None and abs(j["lhs"] - prev) <= 1e-5 * j["scale"]
+        prev = j["lhs"]
+        if stable and j["est"] <= 3e-6 * j["scale"]:
             stats["gd_npts"][npts] = stats["gd_npts"].get(npts, 0) + 1
             resid = j["lhs"] - j["rhs"]
             if abs(resid) <= TOL_GD * j["scale"]:
@@ -732,7 +737,11 @@ def run_pz_db(ctx, exe, dbname, extra, npaths, nrand, stats):
         stats["gd_temp_hist"][min(9, int(p["temp"] // 10))] += 1
         rel = abs(info["lhs"] - info["rhs"]) / info["scale"]
         stats["gd_max_rel"] = max(stats["gd_max_rel"], rel)
-        stats["gd_max_rel_corr"] = max(stats["gd_max_rel_corr"], abs(info["lhs"] - info["rhs"] - info["a0_pred"]) / info["scale"])
+        relc = abs(info["lhs"] - info["rhs"] - info["a0_pred"]) / info["scale"]
+        if relc > stats["gd_max_rel_corr"]:
+            stats["gd_max_rel_corr"] = relc
+            stats["gd_worst"] = {"db": label, "salts": p["salts"], "temp": p["temp"], "A": p["A"], "B": p["B"], "rel": rel,
+                                 "rel_after_A0_correction": relc, "npts": info["npts"], "est_over_scale": info["est"] / info["scale"]}
         for aw, pred, sm, phi in info["aw"]:
             stats["aw_evals"] += 1
             stats["sum_m_hist"][max(0, min(5, int(math.floor(math.log10(max(sm, 1e-5))) + 4)))] += 1
@@ -863,7 +872,7 @@ def run_checks(ctx, ok):
         "gd_paths": stats["gd_paths"], "gd_verdicts": stats["gd_verdicts"], "gd_unjudged_why": stats["gd_unjudged_why"],
         "gd_path_kinds": stats["gd_label"], "gd_temperature_histogram": stats["gd_temp_hist"], "gd_points_needed": stats["gd_npts"],
         "gd_max_relative_residual": stats["gd_max_rel"],
-        "gd_max_relative_residual_after_A0_correction": stats["gd_max_rel_corr"], "log10_sum_m_histogram_-4..1": stats["sum_m_hist"],
+        "gd_max_relative_residual_after_A0_correction": stats["gd_max_rel_corr"], "gd_worst_path": stats.get("gd_worst"), "log10_sum_m_histogram_-4..1": stats["sum_m_hist"],
         "skipped_patm_gt_1": stats["pz_patm_gt1"]}
     if stats["db_load_failed"]:
         ctx.cov["databases_not_loaded"] = stats["db_load_failed"]
